@@ -18,7 +18,7 @@ meta = {"property": prop, "patch": "patch.diff", "demonstration": "demo.py", "or
 if os.path.exists(os.path.join(d, "notes.md")):
     meta["needs_to_manifest"] = open(os.path.join(d, "notes.md")).read()[:1500]
 if os.path.exists(os.path.join(d, "meta.json")):
-    try: meta.update({k: v for k, v in json.load(open(os.path.join(d, "meta.json"))).items() if k in ("needs", "description", "origin", "does_not_break_stated_property")})
+    try: meta.update({k: v for k, v in json.load(open(os.path.join(d, "meta.json"))).items() if k in ("needs", "description", "origin", "does_not_break_stated_property", "caught_by_other_property")})
     except Exception: pass
 try:
     r = sh("git -C /repo worktree add -q %s HEAD" % wt); assert r.returncode == 0, r.stderr
